@@ -303,6 +303,10 @@ Fixpoint f_run (sched : list tid) (s : fstate) (tr : list wev) : fstate * list w
 
 End FG.
 
+(* the target of the quiescent_barrier() the thread is inside, if any *)
+Definition qb_target (th : thread) : option N :=
+  match tpc th with PQb2 tg | PQb3 tg _ | PQb4 tg => Some tg | _ => tret th end.
+
 Definition thread0 (script : list call) : thread := mkT PIdle script None agent0.
 
 Definition f0 (scripts : tid -> list call) : fstate :=
@@ -364,15 +368,16 @@ Definition clk_step (t : tid) (op : clkop) (k : clocks) : clocks :=
 
 End HB.
 
-(* fine-grained state + clocks + for every node n and agent x the time (x's own clock component)
-   at which x left [fwait n] *)
+(* fine-grained state + clocks + for every node n (every quiescent_barrier caller b) and agent x the
+   time (x's own clock component) at which x left [fwait n] ([fqbw b]) *)
 Record hstate := mkH {
   hf : fstate;
   hk : clocks;
-  hleft : nid -> tid -> option nat
+  hleft : nid -> tid -> option nat;     (* when x left fwait n *)
+  hleftq : tid -> tid -> option nat     (* when x left fqbw b (the waiting set of b's quiescent_barrier) *)
 }.
 
-Definition h0 (scripts : tid -> list call) : hstate := mkH (f0 scripts) clk0 (fun _ _ => None).
+Definition h0 (scripts : tid -> list call) : hstate := mkH (f0 scripts) clk0 (fun _ _ => None) (fun _ _ => None).
 
 Definition gen_h_step (t : tid) (h : hstate) : hstate * list wev :=
   let '(s', evs, op) := gen_f_step t (hf h) in
@@ -382,7 +387,12 @@ Definition gen_h_step (t : tid) (h : hstate) : hstate * list wev :=
   (mkH s' k'
        (fun n x => if fwait s' n x then None
                    else if fwait (hf h) n x then Some (vc k' x x)
-                   else hleft h n x),
+                   else hleft h n x)
+       (fun b x => if fqbw s' b x then None
+                   else if fqbw (hf h) b x then Some (vc k' x x)
+                   else match qb_target (fth (hf h) b), qb_target (fth s' b) with
+                        | None, Some _ => None          (* b starts a new barrier: forget the previous one *)
+                        | _, _ => hleftq h b x end),
    evs).
 
 Fixpoint gen_h_run (sched : list tid) (h : hstate) (tr : list wev) : hstate * list wev :=
